@@ -383,3 +383,23 @@ Proof.
     cbn [map flat_map]. rewrite IH. destruct (m_cs m) eqn:E; [congruence|]. cbn [length Nat.ltb Nat.leb app].
     unfold triple. now rewrite E, H7, H3, H4.
 Qed.
+
+(* The projected-observables oracle (Lp.c10_frames_sem) on concrete frames: it accepts the frames of the model's own sender (a 300-byte
+   packet over an MTU of 100: several fragments), it accepts a DIFFERENT split of the same packet (balanced fragment sizes, sequence
+   numbers starting elsewhere inside the window), and it rejects a lost fragment, a fragment with a byte changed, and a sequence number
+   outside the window. *)
+Lemma frames_sem_examples :
+  let o := mkSo true true in
+  let wire := map (fun i => N.of_nat i mod 251) (seq 0 300) in
+  let tok := [1; 2; 3; 4; 5; 6] in
+  let '(frames, ls1) := ls_send 100 (set_next_seq (make_ls o) 7) tok (Some 9) (Some 1) wire in
+  let mk q i c fr := lp_encode (mkLpf (Some q) (Some i) (Some 3) tok (Some 9) None None (Some 1) (Some fr)) in
+  let alt := [mk 8 0 3 (firstn 100 wire); mk 9 1 3 (firstn 100 (skipn 100 wire)); mk 10 2 3 (skipn 200 wire)] in
+  (1 <? length frames)%nat = true /\
+  c10_frames_sem o 7 (ls_seq ls1) tok (Some 9) (Some 1) wire frames = 0 /\
+  c10_frames_sem o 7 12 tok (Some 9) (Some 1) wire alt = 0 /\
+  c10_frames_sem o 7 (ls_seq ls1) tok (Some 9) (Some 1) wire (tl frames) = 2 /\
+  c10_frames_sem o 7 12 tok (Some 9) (Some 1) (1 :: tl wire) alt = 2 /\
+  c10_frames_sem o 7 10 tok (Some 9) (Some 1) wire alt = 6 /\
+  c10_frames_sem o 7 12 tok None (Some 1) wire alt = 5.
+Proof. vm_compute. repeat split. Qed.
